@@ -777,10 +777,13 @@ pub fn outer_marker(m: &Model, ctx: &mut Ctx, rule: &str) {
     };
     ctx.func(&f.key);
     let consts = const_resolver(m);
+    // which ends of the folded bound are finite: both, the lower one only (`5..MAX`), the upper one only (`MIN..20`)
+    let ends = std::cell::Cell::new((true, true));
     let pvrc = || {
+        let (lo, hi) = ends.get();
         let mut n = Map::new();
-        n.insert("min".to_string(), Val::some(Val::int(0)));
-        n.insert("max".to_string(), Val::some(Val::int(20)));
+        n.insert("min".to_string(), if lo { Val::some(Val::int(0)) } else { Val::none() });
+        n.insert("max".to_string(), if hi { Val::some(Val::int(20)) } else { Val::none() });
         n.insert("extensible".to_string(), Val::Bool(false));
         n.insert("is_size_constraint".to_string(), Val::Bool(false));
         Val::Ctor("PerVisibleRangeConstraints".into(), vec![], n)
@@ -811,8 +814,11 @@ pub fn outer_marker(m: &Model, ctx: &mut Ctx, rule: &str) {
         setf.insert("operant".to_string(), Val::Ctor("Box".into(), vec![element(range(10, 20))], Map::new()));
         Val::Ctor("SetOperation".into(), vec![Val::Ctor("SetOperation".into(), vec![], setf)], Map::new())
     };
-    for (what, set) in [("((0..20), ...)", element(range(0, 20))), ("(0..5 | (10..20), ...)", setop("Union")), ("((0..5) ^ (10..20), ...)", setop("Intersection"))] {
+    for (what, set, finite) in [("((0..20), ...)", element(range(0, 20)), (true, true)), ("(0..5 | (10..20), ...)", setop("Union"), (true, true)), ("((0..5) ^ (10..20), ...)", setop("Intersection"), (true, true)),
+        // a bound with one open end is as extensible as any other: `((0..MAX), ...)`, `((MIN..20), ...)`
+        ("((0..MAX), ...)", element(range(0, 20)), (true, false)), ("((MIN..20), ...)", element(range(0, 20)), (false, true))] {
         for marker in [true, false] {
+            ends.set(finite);
             let shown = if marker { what.to_string() } else { what.replace(", ...", "") };
             ctx.oblige(rule, &format!("outer-marker:{}", shown), true);
             let mut spec = Map::new();
